@@ -43,6 +43,7 @@ const (
 	EBuiltin     = "failing-builtin"
 	EStray       = "stray-control"
 	ENegShift    = "negative-shift"
+	ECyclicPrint = "self-containing-print"
 )
 
 // Result is what the model predicts.
@@ -319,6 +320,11 @@ func (in *interp) exec(s bn.Stmt, env *Env) signal {
 		in.eval(s.E, env)
 	case *bn.Print:
 		v := in.eval(s.E, env)
+		if (v.K == KArr || v.K == KObj) && in.selfContains(v) {
+			// a value that reaches itself has no finite text: a runtime error on the line of the print keyword (K13)
+			in.res.Tags["self-containing-print"]++
+			in.fail(ECyclicPrint, s.Line, "")
+		}
 		in.print(v)
 	case *bn.Var:
 		v := NilV()
@@ -462,9 +468,6 @@ func (in *interp) print(v Value) {
 	case KArr, KObj:
 		toks, bag, ok := Flatten(v)
 		if !ok {
-			if in.selfContains(v) {
-				in.unspecified("printing a self-containing value")
-			}
 			in.res.Out = append(in.res.Out, Rec{Kind: RAny})
 		} else {
 			in.res.Out = append(in.res.Out, Rec{Kind: RContainer, Tokens: toks, Bag: bag})
